@@ -31,7 +31,7 @@ ASSUMPTIONS = [
 ]
 FLOORS = {
     "quick": {"eval:line_coordinates": 20000, "eval:grid_coordinates": 1500, "eval:spacing_to_size": 20000,
-              "eval:profile_coordinates": 100, "eval:shape_to_spacing": 100, "distinct_nontrivial": 5000, "class:long_line": 100, "class:long_line_50k": 15},
+              "eval:profile_coordinates": 100, "eval:shape_to_spacing": 100, "distinct_nontrivial": 5000, "class:long_line": 100, "class:long_line_50k": 15, "eval:ownership": 350},
     "thorough": {"eval:line_coordinates": 200000, "eval:grid_coordinates": 10000, "distinct_nontrivial": 50000},
 }
 JOBS = {"quick": 1, "thorough": 16}
@@ -44,8 +44,8 @@ AMBIENT_FILES = ['test_coordinates.py', 'test_base.py', 'test_blockreduce.py', '
 
 def plan(tier):
     if tier == "quick":
-        return collections.OrderedDict(lattice=41, random_line=40, long_line=30, grid=40, nested=12, profile=10, shape_spacing=10)
-    return collections.OrderedDict(lattice=81, sizes=12, random_line=800, long_line=600, grid=600, nested=120, profile=100, shape_spacing=100, ambient=5)
+        return collections.OrderedDict(lattice=41, random_line=40, long_line=30, grid=40, nested=12, profile=10, shape_spacing=10, ownership=20)
+    return collections.OrderedDict(lattice=81, sizes=12, random_line=800, long_line=600, grid=600, nested=120, profile=100, shape_spacing=100, ownership=300, ambient=5)
 
 
 # ----------------------------------------------------------------------
@@ -360,6 +360,37 @@ def run_case(run, tap, stream, index, rng):
         region = [0.0, n + float(rng.choice([0.015, 0.4, 0.25])), -50.0, 50.3]
         vc.grid_coordinates(region, spacing=(0.25 * 10, 1.0), adjust="region", meshgrid=bool(rng.random() < 0.3))
         run.sample("long_line", {"start": start, "stop": stop, "spacing": spacing, "adjust": adjust, "pixel_register": pixel, "n_nodes": int(vals.size)})
+    elif stream == "ownership":
+        # call histories: the caller edits the returned arrays in place, then asks for the same coordinates again (and for
+        # other coordinates in between); every return is judged by the monitors against its own arguments
+        for _ in range(6):
+            region = _random_region(rng, degenerate=False)
+            if rng.random() < 0.4:  # square region, scalar spacing: east and north vectors have equal values
+                region = [region[0], region[1], region[0], region[1]]
+            w, e, s_, n = region
+            spacing = float((e - w) / rng.uniform(1.5, 12))
+            calls = [
+                lambda: vc.line_coordinates(w, e, spacing=spacing),
+                lambda: vc.line_coordinates(w, e, size=int(7)),
+                lambda: vc.line_coordinates(w, e, spacing=spacing, adjust="region", pixel_register=True),
+                lambda: vc.grid_coordinates(region, spacing=spacing, meshgrid=False),
+                lambda: vc.grid_coordinates(region, shape=(5, 5), meshgrid=False),
+                lambda: vc.grid_coordinates(region, spacing=spacing),
+                lambda: vc.grid_coordinates(region, shape=(4, 6), pixel_register=True, extra_coords=[1.0]),
+                lambda: vc.profile_coordinates((w, s_), (e, n), 9)[0],
+            ]
+            for k in rng.permutation(len(calls)):
+                first = calls[k]()
+                arrays = [first] if isinstance(first, np.ndarray) else list(first)
+                if len(arrays) >= 2 and arrays[0].ndim == 1 and np.shares_memory(arrays[0], arrays[1]):
+                    run.violation("ownership", "easting and northing vectors returned by one call share memory", {"region": region}, key="shared-buffers")
+                for arr in arrays:
+                    if isinstance(arr, np.ndarray) and arr.flags.writeable:
+                        arr *= -2.0
+                        arr += 17.0
+                calls[k]()  # judged by the monitors: must again start at the west/south bound etc.
+                run.evaluated("ownership")
+        run.sample("ownership", {"region": region, "spacing": spacing})
     elif stream == "grid":
         for _ in range(40):
             region = _random_region(rng)
